@@ -103,6 +103,7 @@ func failOut(phase string, err error) Outcome {
 
 // execOp runs one op against an STFS instance (fs-level ops through the afero API, batched ops through Operations).
 func execOp(rig *Rig, o Op) Outcome {
+	stepBegin()
 	f := rig.FS
 	switch o.K {
 	case "mkdir":
